@@ -51,7 +51,7 @@ class Out:
         ln = len(self.lines)
         col = 1
         for (text, owner, code) in segs:
-            if code and text.strip():
+            if code and (text.strip() or code == 2):    # code == 2: a token begins here although the text is blank
                 stripped_end = col + len(text.rstrip())
                 self.last_code = (ln, stripped_end)
                 if owner is not None:
@@ -267,6 +267,11 @@ def params_for(out, where):
     return ps
 
 
+TS_TYPES = ["number", "void", "string", "Promise<Map<string, Array<Map<string, number>>>>",
+            "Record<string, Array<[number, string, Map<string, Set<number>>]>> | undefined | null",
+            "A.B.C<D.E, F.G<H>, I> | J<K, L<M, N<O, P>>> | Q"]
+
+
 def header_for(out, name, where):
     """-> (prefix tokens owned by the parent, header text without params, suffix after params)"""
     lang = out.lang
@@ -281,6 +286,9 @@ def header_for(out, name, where):
         if rnd.random() < 0.15:
             pre = "@Override " + pre
         suf = rnd.choice(["", "", "", " throws Exception", " throws IOException, E"])
+        if rnd.random() < 0.08:
+            # the follow-up test `throws ... {` has no length bound (seeded change C01-3)
+            suf = " throws " + ", ".join(rnd.choice(["E%d" % i, "java.io.IOException", "a.b.c.E%d" % i]) for i in range(rnd.randint(3, 14)))
         return pre, name, suf
     if lang == "C#":
         pre = rnd.choice(["void ", "public int ", "private static string ", "internal List<string> ", "public async Task "])
@@ -290,14 +298,14 @@ def header_for(out, name, where):
         pre = rnd.choice(["", "", "static ", "async "])
         suf = ""
         if lang == "TypeScript" and rnd.random() < 0.4:
-            suf = ": " + rnd.choice(["number", "void", "string"])
+            suf = ": " + rnd.choice(TS_TYPES)
         return pre, name, suf
     k = rnd.random()
     if k < 0.55:
         pre = "async " if rnd.random() < 0.25 else ("export " if where == "global" and rnd.random() < 0.2 else "")
         suf = ""
         if lang == "TypeScript" and rnd.random() < 0.4:
-            suf = ": " + rnd.choice(["number", "void", "string"])
+            suf = ": " + rnd.choice(TS_TYPES)
         return pre, "function " + name, suf
     pre = "export " if where == "global" and rnd.random() < 0.2 else ""
     kw = "const " if rnd.random() < 0.7 else ""
@@ -488,9 +496,21 @@ def gen_py_block(out, owner, ind, depth, in_func, allow_defs=True, n=None):
             out.line((pad, None, False), ("t = '''multi", owner, True))
             out.line((pad + "  ", None, False), ("line (", owner, True))
             out.line((pad + "    ", None, False), ("'''", owner, True))
-        elif r < 0.64:
+        elif r < 0.62:
             out.line((pad, None, False), ("v = 1 + \\", owner, True))
             out.line((pad + "    ", None, False), ("2", owner, True))
+        elif r < 0.63:
+            # a line holding only the continuation backslash (its Text token is not blank: a code line)
+            out.line((pad, None, False), ("v = 1 + \\", owner, True))
+            out.line((pad + "    ", None, False), ("\\", owner, True))
+            out.line((pad + "    ", None, False), ("2", owner, True))
+        elif r < 0.64:
+            # an EMPTY line inside a non-docstring multi-line string: the lexer emits a String token "\n"
+            # at column 1 of that line (a code line), and the logical line continues
+            out.line((pad, None, False), ("t = '''multi", owner, True))
+            out.line(("", owner, 2))
+            out.line(("  line (", owner, True))
+            out.line((pad + "    ", None, False), ("'''", owner, True))
         elif r < 0.76:
             head = rnd.choice(["if x:", "while x:", "for i in y:", "with a as b:", "try:", "else:" if False else "if x and (y or z):"])
             out.line((pad, None, False), (maybe_trailing(out, head), owner, True))
